@@ -31,7 +31,12 @@ TAbortDone == Is("AbortDone") /\ AbortDone
 TSide == Is("Side") /\ UNCHANGED fvars
 \* reopen of the storage: the file must be at a committed end; the in-memory position is re-derived
 TReopen == Is("Reopen") /\ phase = "idle" /\ E.pos = pos /\ UNCHANGED fvars
+TPackBegin == Is("PackBegin") /\ PackBegin
 TPackSwap == Is("PackSwap") /\ PackSwap(E.pos)
+TPackEnd == Is("PackEnd") /\ PackEnd
+\* C08: a crash at any instant of a pack reopens to the unpacked or (once the rewritten file is swapped in) the
+\* packed database
+TProbePack == Is("ProbePack") /\ phase = "packing" /\ Sees(E) /\ UNCHANGED fvars
 \* C09: the same image opened with an index file saved at an earlier moment (or a truncation of one), with
 \* leftover side files, or read-only: the index and side files are only caches, so the answer is the same
 TProbeIndex == Is("ProbeIndex") /\ Sees(E) /\ UNCHANGED fvars
@@ -41,7 +46,7 @@ TProbe == Is("Probe") /\ Sees(E) /\ UNCHANGED fvars
 TProbeTorn == Is("ProbeTorn") /\ Sees(E) /\ UNCHANGED fvars
 \* an empty transaction of an empty database etc. need no special case: every call is an event
 
-TNext == TVoteWrite \/ TVoteEnd \/ TFlip \/ TFsync \/ TAck \/ TTruncate \/ TAbortDone \/ TSide \/ TReopen \/ TProbe \/ TProbeTorn \/ TPackSwap \/ TProbeIndex \/ TProbeRO
+TNext == TVoteWrite \/ TVoteEnd \/ TFlip \/ TFsync \/ TAck \/ TTruncate \/ TAbortDone \/ TSide \/ TReopen \/ TProbe \/ TProbeTorn \/ TPackBegin \/ TPackSwap \/ TPackEnd \/ TProbePack \/ TProbeIndex \/ TProbeRO
 
 Accepted == l = Len(T) + 1
 Report == (Accepted => PrintT(<<"ACCEPT", t>>)) /\ (IOEnv.TRACE_VERBOSE = "1" => PrintT(<<"AT", t, l>>))
